@@ -32,7 +32,16 @@ import (
 type l1Up struct {
 	Init  bool  `json:"init,omitempty"`
 	Track int   `json:"track"`
-	Seq   int64 `json:"seq,omitempty"`
+	Seq   int64 `json:"seq,omitempty"`  // mfhd.sequence_number of the upload
+	TNr   int64 `json:"tnr,omitempty"`  // baseMediaDecodeTime / segment duration; 0 = Seq (number and time agree: not shifted)
+}
+
+// number that time/duration gives for this upload
+func (u l1Up) timeNr() int64 {
+	if u.TNr != 0 {
+		return u.TNr
+	}
+	return u.Seq
 }
 
 type l1Scenario struct {
@@ -41,6 +50,7 @@ type l1Scenario struct {
 	Tsbd   uint32     `json:"w"`
 	Ups    []l1Up     `json:"ups"`
 	Gen    string     `json:"generator"`
+	Shifted bool      `json:"shifted,omitempty"` // incoming numbers differ from time/duration: the channel starts shifted
 	// filled in for a failure:
 	FailOp  int             `json:"fail_op,omitempty"`
 	Precond map[string]bool `json:"precond,omitempty"`
@@ -52,6 +62,7 @@ type l1Obs struct {
 	Chan    []int64    `json:"chan"`  // flatChan
 	Files   [][2]int64 `json:"files"` // (track index, number), sorted
 	Content string     `json:"content,omitempty"`
+	Stored  int64      `json:"stored"` // number of the media file this upload created or rewrote (-1: none)
 	PubErr  string     `json:"pub_err,omitempty"`
 	Started bool       `json:"started"`
 	NrTr    int64      `json:"nrtr"`
@@ -107,7 +118,7 @@ func l1Load(t c17track) (*l1Template, error) {
 }
 
 // synthesise segment number seq of a track: the template with mfhd.sequence_number and tfdt rewritten
-func l1Segment(tp *l1Template, seq int64) ([]byte, error) {
+func l1Segment(tp *l1Template, seq, timeNr int64) ([]byte, error) {
 	f, err := mp4.DecodeFile(bytes.NewReader(tp.data))
 	if err != nil {
 		return nil, err
@@ -115,7 +126,7 @@ func l1Segment(tp *l1Template, seq int64) ([]byte, error) {
 	seg := f.Segments[0]
 	for _, fr := range seg.Fragments {
 		fr.Moof.Mfhd.SequenceNumber = uint32(seq)
-		fr.Moof.Traf.Tfdt.SetBaseMediaDecodeTime(uint64(seq * tp.durIn))
+		fr.Moof.Traf.Tfdt.SetBaseMediaDecodeTime(uint64(timeNr * tp.durIn))
 	}
 	var buf bytes.Buffer
 	if err := seg.Encode(&buf); err != nil {
@@ -205,11 +216,19 @@ func l1RunScenario(sc l1Scenario, emit func(l1Obs)) {
 			if err != nil {
 				panic(err)
 			}
-			body, err = l1Segment(tp, u.Seq)
+			body, err = l1Segment(tp, u.Seq, u.timeNr())
 			if err != nil {
 				panic(err)
 			}
 			url = fmt.Sprintf("/upload/%s/%s/%d%s", l1Chan, t.Name, u.Seq, t.Ext)
+		}
+		before := map[string]int64{}
+		if ents, err := os.ReadDir(filepath.Join(chDir, t.Name)); err == nil {
+			for _, e := range ents {
+				if inf, err := e.Info(); err == nil {
+					before[e.Name()] = inf.ModTime().UnixNano()
+				}
+			}
 		}
 		req := httptest.NewRequest(http.MethodPut, url, bytes.NewReader(body))
 		req.ContentLength = int64(len(body))
@@ -254,18 +273,61 @@ func l1RunScenario(sc l1Scenario, emit func(l1Obs)) {
 			}
 			return o.Files[i][1] < o.Files[j][1]
 		})
-		// content of what was just stored
+		// which media file did this upload create (or rewrite), and what is in it
+		o.Stored = -1
 		if !u.Init && rr.Code == http.StatusOK {
-			got, err := os.ReadFile(filepath.Join(chDir, t.Name, fmt.Sprintf("%d%s", u.Seq, t.Ext)))
+			var created []string
+			if ents, err := os.ReadDir(filepath.Join(chDir, t.Name)); err == nil {
+				for _, e := range ents {
+					base := strings.TrimSuffix(e.Name(), t.Ext)
+					if _, err := strconv.ParseInt(base, 10, 64); err != nil {
+						continue
+					}
+					inf, err := e.Info()
+					if err != nil {
+						continue
+					}
+					if old, ok := before[e.Name()]; !ok || old != inf.ModTime().UnixNano() {
+						created = append(created, e.Name())
+					}
+				}
+			}
+			if len(created) == 0 && !sc.Shifted {
+				if _, ok := before[fmt.Sprintf("%d%s", u.Seq, t.Ext)]; ok {
+					created = []string{fmt.Sprintf("%d%s", u.Seq, t.Ext)} // a duplicate upload rewrote its file within the clock tick
+				}
+			}
 			switch {
-			case err != nil:
-				o.Content = "uploaded segment is not stored under its track and number: " + err.Error()
-			case t.Media != "text" && !bytes.Equal(got, body):
-				o.Content = fmt.Sprintf("stored file differs from the uploaded bytes (%d vs %d bytes)", len(got), len(body))
-			case t.Media == "text":
+			case len(created) != 1:
+				o.Content = fmt.Sprintf("the upload created or rewrote %d media files of its track (%v), expected exactly one", len(created), created)
+			default:
+				nr, _ := strconv.ParseInt(strings.TrimSuffix(created[0], t.Ext), 10, 64)
+				o.Stored = nr
+				got, err := os.ReadFile(filepath.Join(chDir, t.Name, created[0]))
+				if err != nil {
+					o.Content = "stored segment cannot be read: " + err.Error()
+					break
+				}
 				f, err := mp4.DecodeFile(bytes.NewReader(got))
-				if err != nil || len(f.Segments) != 1 || f.Segments[0].Fragments[0].Moof.Mfhd.SequenceNumber != uint32(u.Seq) {
-					o.Content = "stored text segment does not decode to the uploaded number"
+				if err != nil || len(f.Segments) != 1 || int64(f.Segments[0].Fragments[0].Moof.Mfhd.SequenceNumber) != nr {
+					o.Content = fmt.Sprintf("stored file %s does not decode to a segment with that sequence number", created[0])
+					break
+				}
+				if !sc.Shifted && nr != u.Seq {
+					o.Content = fmt.Sprintf("segment %d was stored as %s", u.Seq, created[0])
+				}
+				if t.Media != "text" && nr == u.Seq && !bytes.Equal(got, body) {
+					o.Content = fmt.Sprintf("stored file differs from the uploaded bytes (%d vs %d bytes)", len(got), len(body))
+				}
+				if nr != u.Seq {
+					// renumbered: the media payload must be the uploaded one
+					fu, err := mp4.DecodeFile(bytes.NewReader(body))
+					if err == nil && len(f.Segments[0].Fragments) > 0 && len(fu.Segments[0].Fragments) > 0 {
+						a, b := f.Segments[0].Fragments[0].Mdat, fu.Segments[0].Fragments[0].Mdat
+						if a != nil && b != nil && !bytes.Equal(a.Data, b.Data) {
+							o.Content = "renumbered segment does not carry the uploaded media data"
+						}
+					}
 				}
 			}
 		}
@@ -417,6 +479,24 @@ func l1Generate(c *lib.Ctx, rng *rand.Rand) []l1Scenario {
 		keys, tsbd := pick(2)
 		scs = append(scs, mk(keys, tsbd, order, "interleave-ordered-2x3"))
 	})
+	// shifted channels: the incoming numbers (8090..) differ from time/duration (449002889..) as in the bundled
+	// zero_3.84s input; small windows, runs longer than the window
+	for _, cfg := range []struct {
+		keys []string
+		tsbd uint32
+		M    int
+	}{{[]string{"v500", "v800"}, 4, 12}, {[]string{"v500", "a128"}, 8, 10}, {[]string{"v500", "v800", "a128"}, 4, 9}} {
+		sc := l1Scenario{Kind: 4, Tracks: tracksOf(cfg.keys...), Tsbd: cfg.tsbd, Gen: "shifted-round-robin", Shifted: true}
+		for i := range cfg.keys {
+			sc.Ups = append(sc.Ups, l1Up{Init: true, Track: i})
+		}
+		for m := 0; m < cfg.M; m++ {
+			for t := range cfg.keys {
+				sc.Ups = append(sc.Ups, l1Up{Track: t, Seq: int64(8090 + m), TNr: int64(449002889 + m)})
+			}
+		}
+		scs = append(scs, sc)
+	}
 	// random skewed runs with gaps, duplicates, a jump
 	for i := 0; i < 40*mult; i++ {
 		T := 2 + rng.Intn(2)
@@ -478,8 +558,13 @@ func l1CoqCase(id int, sc l1Scenario, obs []l1Obs) string {
 			if err != nil {
 				panic(err)
 			}
-			dts, dur := l1ItemOut(tp, u.Seq)
-			ops = append(ops, fmt.Sprintf("OCUp %d (mkItem %d %d %d false)", u.Track, u.Seq, dts, dur))
+			dts, dur := l1ItemOut(tp, u.timeNr())
+			if sc.Shifted {
+				// the model derives number, time and the shifted flag as the upload callback does
+				ops = append(ops, fmt.Sprintf("OCUpIn %d %d %d %d", u.Track, u.Seq, dts, dur))
+			} else {
+				ops = append(ops, fmt.Sprintf("OCUp %d (mkItem %d %d %d false)", u.Track, u.Seq, dts, dur))
+			}
 		}
 		o := obs[i]
 		if o.Died != "" {
@@ -557,7 +642,10 @@ func l1Oracle(c *lib.Ctx, id string, sc l1Scenario, obs []l1Obs) {
 	fail := func(opi int, key, what string) {
 		fin := sc
 		fin.FailOp = opi
-		fin.Precond = pre
+		fin.Precond = map[string]bool{}
+		for k, v := range pre {
+			fin.Precond[k] = v
+		}
 		c.Fail(id, key, fmt.Sprintf("upload %d (%+v): %s", opi, sc.Ups[opi], what), fin)
 	}
 	lastPub := int64(-1)
@@ -565,6 +653,8 @@ func l1Oracle(c *lib.Ctx, id string, sc l1Scenario, obs []l1Obs) {
 	maxSeq := map[int]int64{}
 	gap := map[int]bool{}
 	beforeStart := map[[2]int64]bool{} // (track, number) uploaded while maxNrBufSegs was still 0: that upload deleted nothing
+	startedBefore := map[int]bool{}
+	staleReported := false
 	registered := 0
 	for i, o := range obs {
 		u := sc.Ups[i]
@@ -636,19 +726,40 @@ func l1Oracle(c *lib.Ctx, id string, sc l1Scenario, obs []l1Obs) {
 		}
 		latest = o.Latest
 		if !u.Init {
-			if m, ok := maxSeq[u.Track]; ok && u.Seq > m+1 {
+			nr := o.Stored // the number the segment is stored under (the outgoing number of a shifted channel)
+			if nr < 0 {
+				fail(i, "stored-content", "accepted upload without a stored media file")
+				return
+			}
+			if m, ok := maxSeq[u.Track]; ok && nr > m+1 && !(sc.Shifted && obs[i-1].MaxBuf > 0 && !startedBefore[u.Track]) {
 				gap[u.Track] = true
 			}
-			if u.Seq > maxSeq[u.Track] {
-				maxSeq[u.Track] = u.Seq
+			if sc.Shifted && obs[i-1].MaxBuf > 0 && !startedBefore[u.Track] {
+				startedBefore[u.Track] = true // first upload of this track under the outgoing numbering
+				maxSeq[u.Track] = nr
+			}
+			if nr > maxSeq[u.Track] {
+				maxSeq[u.Track] = nr
 			}
 			if i > 0 && obs[i-1].MaxBuf == 0 {
-				beforeStart[[2]int64{int64(u.Track), u.Seq}] = true
+				beforeStart[[2]int64{int64(u.Track), nr}] = true
 			}
 			// storage window: no file of this track with a number <= newest - maxNrBufSegs once that is known
 			if o.MaxBuf > 0 && i > 0 && obs[i-1].MaxBuf > 0 {
 				for _, f := range o.Files {
 					if int(f[0]) == u.Track && f[1] <= maxSeq[u.Track]-o.MaxBuf {
+						if sc.Shifted && beforeStart[[2]int64{f[0], f[1]}] {
+							// stored under the incoming number before the channel was started: reported once, the
+							// files under the outgoing numbers are still checked
+							if !staleReported {
+								staleReported = true
+								fin := sc
+								fin.FailOp = i
+								fin.Precond = map[string]bool{"stored_under_incoming_number": true}
+								c.Fail(id, "files:outside-window", fmt.Sprintf("upload %d: track %s still stores segment %d (its number before the channel was started), newest %d, maxNrBufSegs %d", i, sc.Tracks[u.Track].Name, f[1], maxSeq[u.Track], o.MaxBuf), fin)
+							}
+							continue
+						}
 						if gap[u.Track] {
 							pre["gap_in_track"] = true
 						}
